@@ -122,7 +122,9 @@ def main():
                 rec["status"] = "does-not-compile"
             else:
                 rc, o = sh("timeout 300 cargo test --offline 2>&1 | grep -E '^test result|FAILED|panicked|error' | head -8", WT, timeout=400)
-                if "FAILED" in o or "error" in o or "test result" not in o:
+                # all five test targets (lib + 4 integration files) must have reported ok: a mutant that makes a
+                # test hang is killed by the timeout after some targets have already printed their result
+                if "FAILED" in o or "error" in o or o.count("test result: ok") < 5:
                     rec["status"] = "killed-by-baseline-tests"
                 else:
                     taken += 1
